@@ -7,7 +7,7 @@
 (*     step on what the code really did                                    *)
 (* Environment: TRACE=<file.ndjson>                                        *)
 (***************************************************************************)
-EXTENDS TraceBase, MonC01, MonC07, MonC08, MonC09, MonC10, MonC11, MonC12, MonC13, MonC14, MonC15, MonC17, MonC19
+EXTENDS TraceBase, MonC01, MonC07, MonC08, MonC09, MonC10, MonC11, MonC12, MonC13, MonC14, MonC15, MonC16, MonC17, MonC19
 
 On(name) == name \in DOMAIN IOEnv /\ IOEnv[name] = "1"
 
@@ -30,7 +30,7 @@ Init == /\ l = 1 /\ nodes = <<>> /\ env = EnvInit /\ mon = <<>>
         /\ viol = [n |-> 0, list |-> <<>>]
         /\ gm = C17Init
 
-MonInit == [C01 |-> C01Init, C07 |-> C07Init, C11 |-> C11Init, C12 |-> C12Init, C08 |-> C08Init, C09 |-> C09Init, C10 |-> C10Init, C13 |-> C13Init, C14 |-> C14Init, C15 |-> C15Init, C19 |-> C19Init]
+MonInit == [C01 |-> C01Init, C07 |-> C07Init, C11 |-> C11Init, C12 |-> C12Init, C08 |-> C08Init, C09 |-> C09Init, C10 |-> C10Init, C13 |-> C13Init, C14 |-> C14Init, C15 |-> C15Init, C16 |-> C16Init, C19 |-> C19Init]
 
 ObsOf(e, prev) ==
     [node |-> e.node, call |-> e.call, args |-> e.args, res |-> e.res, out |-> e.out,
@@ -51,6 +51,7 @@ MonStep(m, o) ==
      C13 |-> IF On("MON_C13") THEN C13Step(m.C13, o) ELSE m.C13,
      C14 |-> IF On("MON_C14") THEN C14Step(m.C14, o) ELSE m.C14,
      C15 |-> IF On("MON_C15") THEN C15Step(m.C15, o) ELSE m.C15,
+     C16 |-> IF On("MON_C16") THEN C16Step(m.C16, o) ELSE m.C16,
      C19 |-> IF On("MON_C19") THEN C19Step(m.C19, o) ELSE m.C19]
 
 MonViols(m) == [p \in DOMAIN m |-> m[p].v]
